@@ -211,10 +211,19 @@ async def _run(counts, scatter, outs, fail, with_outputs, method, raise_exc, wat
             else:
                 obs["outcome"] = "raised"
                 obs["exc"] = "%s: %s" % (type(exc).__name__, exc)
-            # the executor does not terminate the steps when it raises on a FAILED termination token: let the
-            # network run to quiescence (database calls in flight counted, bounded by settle_s), then look
-            with contextlib.suppress(TimeoutError):
-                await q.settle(rounds=6, watchdog=settle_s)
+            # the executor does not terminate the steps when it raises on a FAILED termination token: give the
+            # network up to settle_s seconds to finish on its own (returns as soon as every step has terminated
+            # and every step task is done; only a network that really stays stuck costs the whole settle_s)
+            loop = asyncio.get_running_loop()
+            deadline = loop.time() + settle_s
+            while True:
+                with contextlib.suppress(TimeoutError):
+                    await q.settle(rounds=4, watchdog=2.0)
+                if all(s.terminated for s in wf.steps.values()) and all(t.done() for t in executor.executions):
+                    break
+                if loop.time() >= deadline:
+                    break
+                await asyncio.sleep(0.05)
             snapshot()
             for t in executor.executions:
                 if not t.done():
@@ -249,3 +258,162 @@ def run_failing_loop(counts, scatter=False, outs=("o1",), fail=None, with_output
         return {"outcome": "harness-error", "exc": "%s: %s" % (type(exc).__name__, exc), "steps": {}, "pending": [],
                 "outputs": None, "build_error": None}
     return res
+
+
+# ------------------------------------------------------------------------------------------------------
+# entry point for harness/vh/props/C04.py
+
+_MC_BODY = ("SPECIFICATION FairSpec\nINVARIANT TypeOK\nINVARIANT FailureMeansRaise\nINVARIANT QuiescentEnded\n"
+            "PROPERTY ExecutorEnds\nPROPERTY EveryStepEnds\n")
+
+
+def _cfg(ni, counts, outs, scatter, failouts, iters, wo, cancel_reader=True, tm_stops=False):
+    b = lambda v: "TRUE" if v else "FALSE"                      # noqa: E731
+    st = lambda xs: "{%s}" % ", ".join('"%s"' % x for x in xs)   # noqa: E731
+    return ("CONSTANTS NI = %d  Counts = {%s}  Outs = %s  Scatter = %s\n"
+            "          FailOuts = %s  FailIters = {%s}  WOSet = {%s}  CancelReader = %s  TMStops = %s\n" % (
+                ni, ", ".join(map(str, counts)), st(outs), b(scatter), st(failouts), ", ".join(map(str, iters)),
+                ", ".join(b(w) for w in wo), b(cancel_reader), b(tm_stops))) + _MC_BODY
+
+
+def _model(ctx, name, *args, expect_ok=True, **kw):
+    cfg = "MC_LoopFail_%s.cfg" % name
+    r = ctx.tlc("Loop", "MC_LoopFail", cfg, files={cfg: _cfg(*args, **kw)}, deadlock=True, timeout=1800)
+    ctx.count("loopfail:mc_states:%s" % name, r.distinct)
+    if expect_ok:
+        ctx.require(r.ok, "LoopFail model %s: %s %s (the as-coded loop network with a failing fed-back job must terminate "
+                          "and raise in the model)\n%s" % (name, r.error, r.violated, r.stdout[-2000:]))
+    return r
+
+
+def _scenarios(ctx, quick):
+    """(class, kwargs) of the real runs.  class 'fedback': the failing job belongs to the body step that produces the
+    fed-back output (every loop with one output is of this class); 'side': it belongs to a body step whose output is
+    not fed back; 'control': no job fails."""
+    fed = [
+        dict(counts=[3], outs=("o1",), fail=("o1", 0, 1), with_outputs=True),
+        dict(counts=[3], outs=("o1",), fail=("o1", 0, 0), with_outputs=False),
+        dict(counts=[3], outs=("o1", "o2"), fail=("o1", 0, 2), with_outputs=True),
+        dict(counts=[2, 3], scatter=True, outs=("o1",), fail=("o1", 1, 0), with_outputs=True),
+        dict(counts=[3, 2], scatter=True, outs=("o1", "o2"), fail=("o1", 0, 1), with_outputs=False),
+        dict(counts=[4], outs=("o1",), fail=("o1", 0, 3), with_outputs=True, raise_exc=True),
+    ]
+    side = [
+        dict(counts=[2], outs=("o1", "o2"), fail=("o2", 0, 0), with_outputs=True),
+        dict(counts=[2, 3], scatter=True, outs=("o1", "o2"), fail=("o2", 1, 1), with_outputs=True),
+    ]
+    control = [dict(counts=[2], outs=("o1",), fail=None, with_outputs=False)]
+    if not quick:
+        rng = ctx.rng("loopfail")
+        pool = []
+        for counts, scatter in (([1], False), ([2], False), ([3], False), ([11], False), ([1, 2], True), ([3, 1], True), ([2, 2, 3], True)):
+            for outs in (("o1",), ("o1", "o2")):
+                for j, n in enumerate(counts):
+                    for k in range(n):
+                        for wo in (True, False):
+                            pool.append(dict(counts=counts, scatter=scatter, outs=outs, fail=("o1", j, k), with_outputs=wo,
+                                             raise_exc=bool((j + k + len(outs)) % 2), method="all" if (k % 2) else "last"))
+        rng.shuffle(pool)
+        seen = {repr(sorted(d.items())) for d in fed}
+        for d in pool:
+            if len(fed) >= 34:
+                break
+            if repr(sorted(d.items())) not in seen:
+                fed.append(d)
+        side += [dict(counts=[3], outs=("o1", "o2"), fail=("o2", 0, 2), with_outputs=True, raise_exc=True),
+                 dict(counts=[1, 2], scatter=True, outs=("o1", "o2"), fail=("o2", 0, 0), with_outputs=True),
+                 dict(counts=[2], outs=("o1", "o2"), fail=("o2", 0, 1), with_outputs=False)]       # run() itself hangs
+        control += [dict(counts=[3, 1], scatter=True, outs=("o1", "o2"), fail=None, with_outputs=False),
+                    dict(counts=[2], outs=("o1",), fail=("o1", 0, 5), with_outputs=False)]          # iteration 5 never runs
+    return [("fedback", d) for d in fed] + [("side", d) for d in side] + [("control", d) for d in control]
+
+
+def _judge(ctx, cls, sc, obs, prefix):
+    """Compare one observation with what LoopFail proves.  Returns the clause that failed or None."""
+    detail = {"class": cls, "scenario": sc, "outcome": obs["outcome"], "exc": obs["exc"],
+              "unterminated": {n: v for n, v in obs["steps"].items() if not v["terminated"]}, "pending": obs["pending"]}
+    tag = prefix if cls != "side" else prefix + ":side-output"
+    expect_raise = cls != "control"
+    if obs["outcome"] == "harness-error":
+        ctx.require(False, "loop_fail harness error: %s" % obs["exc"])
+    if obs["build_error"]:
+        ctx.violation("%s:setup:%s" % (tag, obs["build_error"].split(":")[0]), dict(detail, build_error=obs["build_error"]),
+                      "the loop workflow could not be built: %s" % obs["build_error"])
+        return "setup"
+    if obs["outcome"] == "hang":
+        kinds = sorted({v["kind"] for v in detail["unterminated"].values()})
+        ctx.violation("%s:hang" % tag, detail,
+                      "StreamFlowExecutor.run() did not return within the watchdog after %s; steps never terminated: %s "
+                      "(LoopFail proves that the executor ends and every step terminates)" % (
+                          "job %s failed" % (sc["fail"],) if sc.get("fail") else "a run without failure", ", ".join(kinds)))
+        return "hang"
+    if expect_raise and obs["outcome"] != "raised":
+        ctx.violation("%s:not-raised" % tag, detail, "job %s failed unrecoverably but run() returned %r" % (sc["fail"], obs["outputs"]))
+        return "not-raised"
+    if not expect_raise and obs["outcome"] != "returned":
+        ctx.violation("%s:spurious-raise" % tag, detail, "no job failed but run() raised %s" % obs["exc"])
+        return "spurious-raise"
+    if detail["unterminated"]:
+        kinds = sorted({v["kind"] for v in detail["unterminated"].values()})
+        sig = "%s:step-not-terminated:%s" % (tag, "+".join(kinds)) if cls != "side" else "%s:step-not-terminated" % tag
+        ctx.violation(sig, detail, "run() %s but %d steps never terminated (still %s): %s" % (
+            obs["outcome"], len(detail["unterminated"]), sorted({v["status"] for v in detail["unterminated"].values()}), ", ".join(kinds)))
+        return "step-not-terminated"
+    bad = {n: v for n, v in obs["steps"].items() if v["status"] not in TERMINAL}
+    if bad or obs["pending"]:
+        kinds = sorted({v["kind"] for v in bad.values()}) or ["task"]
+        ctx.violation("%s:task-pending:%s" % (tag, "+".join(kinds)), dict(detail, nonterminal=bad),
+                      "steps terminated but %d step tasks are still pending / %d statuses are not terminal" % (len(obs["pending"]), len(bad)))
+        return "task-pending"
+    return None
+
+
+def check_failing_loops(ctx, focus="C04", side_output=True, prefix="loop-failure"):
+    """C04 on loop networks with an unrecoverable failure of a body job.
+
+    1. TLC: specs/Loop/LoopFail.tla as coded - for a failing job on the fed-back path (every single-output loop) the
+       executor ends (raises iff the job ran) and every step terminates, with and without workflow output ports.
+    2. Real loop workflows (engine-level, wired like the CWL translator, no recovery) with the failing job at chosen
+       (output, instance, iteration): run() must raise, every step must terminate, no step task may stay pending.
+       A hang is a violation because the model proves termination.
+    side_output=True also runs the class in which the failing job belongs to a body step whose output is NOT fed back:
+    the as-coded model predicts non-termination there (TLC counterexample), the real code follows it -> genuine
+    defect, reported as `<prefix>:side-output:*` (list it in known_findings.d/<focus>.json, see notes/C06.md section 7)."""
+    quick = ctx.quick
+    # ---- model ------------------------------------------------------------------------------------------
+    _model(ctx, "one", 1, [1, 2, 3], ["o1"], False, ["o1"], [0, 1, 2], [True, False])
+    _model(ctx, "two_outs", 1, [1, 2] if quick else [1, 2, 3], ["o1", "o2"], False, ["o1"], [0, 1] if quick else [0, 1, 2], [True, False])
+    if not quick:
+        _model(ctx, "scatter", 2, [1, 2], ["o1"], True, ["o1"], [0, 1, 2], [True, False])
+    side_pred = None
+    if side_output:
+        r = _model(ctx, "side_as_coded", 1, [1], ["o1", "o2"], False, ["o2"], [0], [True, False], expect_ok=False)
+        side_pred = (r.error, r.violated)
+        ctx.extra["loopfail_side_output_model"] = {"as_coded": {"error": r.error, "violated": r.violated, "states": r.distinct}}
+        if not quick:
+            r2 = _model(ctx, "side_repaired", 1, [1, 2], ["o1", "o2"], False, ["o1", "o2"], [0, 1], [True, False], tm_stops=True)
+            ctx.extra["loopfail_side_output_model"]["repaired_TMStops"] = {"ok": r2.ok, "states": r2.distinct}
+    # ---- real runs --------------------------------------------------------------------------------------
+    hangs = {}
+    n = 0
+    for cls, sc in _scenarios(ctx, quick):
+        if cls == "side" and not side_output:
+            continue
+        if hangs.get(cls, 0) >= 2:
+            ctx.count("loopfail:skipped-after-hangs")
+            continue
+        obs = run_failing_loop(watchdog=15.0 if quick else 30.0, settle_s=3.0 if quick else 6.0, **sc)
+        n += 1
+        ctx.case(("loopfail", cls, repr(sorted(sc.items()))))
+        ctx.count("loopfail:runs:%s" % cls)
+        clause = _judge(ctx, cls, sc, obs, prefix)
+        if clause == "hang":
+            hangs[cls] = hangs.get(cls, 0) + 1
+        if clause is None:
+            ctx.count("loopfail:ok:%s" % cls)
+        if cls == "side" and clause is not None and side_pred and side_pred[0] is None:
+            ctx.count("loopfail:side-defect-not-predicted-by-model")
+    ctx.impl_trace(n)
+    ctx.assumptions += ["loop networks with a failing body job: engine-level builder (vh/sut/loop_fail.py) wired like the CWL translator; "
+                        "default failure manager (no recovery); schedule/transfer steps abstracted to one forwarding step in LoopFail"]
+    return n
